@@ -274,6 +274,21 @@ func init() {
 		wlo, whi := status(c.Func("mcp", "sseClientConn", "Write"), "write")
 		fmt.Fprintf(&b, "/-- Connect accepts the GET's status iff lo ≤ status < hi -/\ndef connectStatusLo : Nat := %d\ndef connectStatusHi : Nat := %d\n", clo, chi)
 		fmt.Fprintf(&b, "/-- Write accepts a POST's status iff lo ≤ status < hi -/\ndef writeStatusLo : Nat := %d\ndef writeStatusHi : Nat := %d\n", wlo, whi)
+		// ---- the code a request is refused with while the connection is closing (internal/jsonrpc2 ErrServerClosing)
+		closing := int64(0)
+		if e := c.ValueExpr("internal/jsonrpc2", "ErrServerClosing"); e != nil {
+			if ce, ok := e.(*ast.CallExpr); ok && len(ce.Args) >= 1 {
+				if v, ok := c.Const("internal/jsonrpc2", ce.Args[0]); ok {
+					if n, err := strconv.ParseInt(v.ExactString(), 10, 64); err == nil {
+						closing = n
+					}
+				}
+			}
+		}
+		if closing == 0 {
+			c.Errf("sseclient: internal/jsonrpc2 ErrServerClosing: code not found")
+		}
+		fmt.Fprintf(&b, "/-- internal/jsonrpc2 ErrServerClosing: the code of the error response to a request refused during shutdown -/\ndef serverClosingCode : Int := %d\n", closing)
 		b.WriteString("end Generated.SseClient\n")
 		c.Lean["SseClientGen"] = b.String()
 	})
